@@ -463,6 +463,13 @@ def gen_middle(rng, n, big):
                 # one to three nodes whose child range spans several blocks of the compressed pointer array
                 ch = rng.choice([rng.range(30000, 70000), rng.range(1 << 16, 1 << 19)]) if wi in hubs else rng.below(4)
             recs.append("%s:%s:%s" % (hx(w), hx(rng.below(1 << quant) if quant else 0), hx(ch)))
+        if rng.chance(1, 4) and len(recs) > 2:
+            # the array below holds EXACTLY 2^k records (RequiredBits steps there: Size() and the constructor must agree on it -- seventh-round
+            # seeded change C20-21 let them differ by one bit per record, visible once the records outgrow the 8 slack bytes)
+            tot = sum(int(r.split(":")[2], 16) for r in recs)
+            k2 = max(1, tot.bit_length())
+            w_, p_, c_ = recs[-1].split(":")
+            recs[-1] = "%s:%s:%s" % (w_, p_, hx(int(c_, 16) + (1 << k2) - tot))
         bits = rng.choice([0, 1, 2, 3, 8, 22, 64, rng.range(0, 64)])
         cases.append("TM %s %s %s %s %s" % (kind, hx(bits), hx(max_vocab), hx(quant), " ".join(recs)))
     return cases
